@@ -519,6 +519,16 @@ func podWrites(f *ssa.Function) []string {
 	return out
 }
 
+func dedup(l []string) []string {
+	var out []string
+	for i, x := range l {
+		if i == 0 || l[i-1] != x {
+			out = append(out, x)
+		}
+	}
+	return out
+}
+
 func allFunctions(prog *ssa.Program, p *ssa.Package) []*ssa.Function {
 	var fns []*ssa.Function
 	seen := map[*ssa.Function]bool{}
@@ -745,6 +755,81 @@ end PSA.Generated
 	sort.Strings(respStores)
 	sort.Strings(globalStores)
 
+	// ---- F9: writes to state that outlives a request: through a method receiver, or into a package-level map / struct /
+	// sync primitive (F8 only sees a direct store to the variable itself)
+	var stateWrites []string
+	for _, path := range []string{mod + "admission", mod + "cmd/webhook/server", mod + "api", mod + "policy"} {
+		p := ssaBy[path]
+		if p == nil {
+			continue
+		}
+		short := path[len(mod):]
+		for _, f := range allFunctions(prog, p) {
+			recv := ""
+			root := f
+			for root.Parent() != nil {
+				root = root.Parent()
+			}
+			if root.Signature.Recv() != nil && len(root.Params) > 0 {
+				if _, isPtr := root.Params[0].Type().Underlying().(*types.Pointer); isPtr {
+					recv = root.Params[0].Name()
+				}
+			}
+			longLived := func(v ssa.Value) (string, bool) {
+				o := origin(v, 0)
+				if strings.Contains(o, "global:") || strings.Contains(o, "shared:") {
+					return o, true
+				}
+				if recv != "" && (strings.Contains(o, "param:"+recv+")") || strings.HasSuffix(o, "param:"+recv) || strings.Contains(o, "freevar:"+recv+")") || strings.HasSuffix(o, "freevar:"+recv)) {
+					return o, true
+				}
+				return o, false
+			}
+			add := func(what string) {
+				stateWrites = append(stateWrites, fmt.Sprintf("    (%s, %s, %s)", leanStr(short), leanStr(f.String()[strings.LastIndex(f.String(), "/")+1:]), leanStr(what)))
+			}
+			isInit := strings.HasPrefix(root.Name(), "init")
+			for _, b := range f.Blocks {
+				for _, ins := range b.Instrs {
+					switch x := ins.(type) {
+					case *ssa.Store:
+						if _, direct := x.Addr.(*ssa.Global); direct {
+							continue // F8
+						}
+						if _, isAlloc := x.Addr.(*ssa.Alloc); isAlloc {
+							continue
+						}
+						if o, ok := longLived(x.Addr); ok && !isInit {
+							add("store through " + o)
+						}
+					case *ssa.MapUpdate:
+						if o, ok := longLived(x.Map); ok && !isInit {
+							add("map update through " + o)
+						}
+					case ssa.CallInstruction:
+						c := x.Common()
+						callee := c.StaticCallee()
+						if callee == nil || callee.Pkg == nil || len(c.Args) == 0 {
+							continue
+						}
+						cp := callee.Pkg.Pkg.Path()
+						if cp != "sync" && cp != "sync/atomic" {
+							continue
+						}
+						if n := callee.Name(); n == "Load" || n == "RLock" || n == "RUnlock" {
+							continue // reads
+						}
+						if o, ok := longLived(c.Args[0]); ok && !isInit {
+							add("call " + callee.String()[strings.LastIndex(callee.String(), "/")+1:] + " on " + o)
+						}
+					}
+				}
+			}
+		}
+	}
+	sort.Strings(stateWrites)
+	stateWrites = dedup(stateWrites)
+
 	// ---- F7
 	constInt := func(pkg, name string) string {
 		p := byName[mod+pkg]
@@ -836,6 +921,13 @@ def responseStores : List (Str × Str × Str × Str) :=
 def globalStores : List (Str × Str × Str) :=
   [
 ` + strings.Join(globalStores, ",\n") + `
+  ]
+
+/-- F9: (package, function, what) for every write, outside init, to state that outlives a request: a store or map update
+    through a pointer method receiver or through a package-level variable, and every sync / sync/atomic call on such state -/
+def stateWrites : List (Str × Str × Str) :=
+  [
+` + strings.Join(stateWrites, ",\n") + `
   ]
 
 /-- F7: constants and small tables -/
